@@ -612,7 +612,9 @@ func (r *run) writeBatches(tx *gorm.DB, st Step, where string, snap []int, out *
 		r.filter(func(w world) bool { return failAt(w) >= 0 }, "tx_unusable", where+"|batches", fmt.Sprintf("%s: CreateInBatches under %s failed with %q although no fault was injected and no key exists (%s)", where, st.K, res.Error, r.cfgKey()))
 		if bare {
 			for _, w := range r.worlds {
-				applyPrefix(w, failAt(w))
+				if n := failAt(w); n > 0 {
+					applyPrefix(w, n)
+				}
 			}
 		}
 		return res.Error
